@@ -6,7 +6,7 @@ package PKGNAME
 // rule the verifier is held to in c02_algebra.go (there through the public-input term PI(zeta)).
 // Recording hash with a symbolic digest of three sizes; KZG commit is an opaque stand-in;
 // encodings are opaque functions of their argument.
-//verif:unwind 400
+//verif:unwind 4000
 //verif:init PLONKPKG
 //verif:replay interpreter
 
